@@ -91,11 +91,13 @@ def load(rule_dir, skip_brute=False, skip_case=False, folder="Grammar", save_fil
                        skip_case=skip_case, base_structure_folder=folder)
 
 
-def exhaust(pcfg, max_pops=100000, inspect=None, expand=True, save_config=None):
+def exhaust(pcfg, max_pops=100000, inspect=None, expand=True, save_config=None, queue_size=None):
     """Real PcfgQueue.next() until None.  Returns list of pops:
     {'pt': tuple, 'prob', 'base_prob', 'lines': [...], 'ret': n}"""
     from lib_guesser.priority_queue import PcfgQueue
     q = PcfgQueue(pcfg, save_config) if save_config is not None else PcfgQueue(pcfg)
+    if queue_size:
+        q.max_queue_size = queue_size       # tuning knob of the class (see session.draw_queue_knob)
     hist = []
     rec = sys.stdout if isinstance(sys.stdout, LineRecorder) else None
     while len(hist) < max_pops:
